@@ -197,6 +197,67 @@ def monitors (c : Case) (ls : List Line) (n : Nat) : List String :=
     else []
   m.viol.reverse ++ endv ++ fifov
 
+/-! Solo monitor (follow-up C17t; tests the bound of `Props/C17Solo.lean` on the real runs): an
+operation during which no other thread produced an event — other threads may be stalled anywhere
+inside their own operations — must consist of at most `Deque.soloBound push` model events (`inv` and
+`ret` included: 19 for a push, 14 for a pop), a solo push must answer `true`, and a solo pop must
+answer `false` exactly when the model's chain was empty at its `inv` (`C17_deque_solo_bound`). -/
+structure SoloOp where
+  t : Nat
+  push : Bool
+  cnt : Nat
+  disturbed : Bool
+  emptyAtInv : Option Bool   -- `none`: the acceptor had already rejected the log
+  reported : Bool := false
+
+structure SoloAcc where
+  st : Option St
+  ops : List SoloOp := []
+  checked : Nat := 0      -- solo operations checked
+  helped : Nat := 0       -- of these: run while another thread was stalled inside an operation
+  maxPush : Nat := 0
+  maxPop : Nat := 0
+  viol : List String := []
+
+/-- The event counting does not depend on the acceptor (it goes on after a rejected event); only
+    the expected answer of a solo pop uses the model state at its `inv`. -/
+def soloStep (fx : Bool) (a : SoloAcc) (e : Ev) : SoloAcc :=
+  let t := e.tid
+  let s' := a.st.bind (fun s => stepG fx s e)
+  let ops := a.ops.map (fun o => if o.t == t then { o with cnt := o.cnt + 1 } else { o with disturbed := true })
+  -- an operation still running alone beyond the bound: it does not terminate within the bound
+  let over := ops.filter (fun o => o.t == t && !o.disturbed && !o.reported && o.cnt > soloBound o.push)
+  let vo := over.map (fun o => s!"thread {t}: a {if o.push then "push" else "pop"} running alone has taken {o.cnt} events (solo bound {soloBound o.push})" ++ (match e with | .ret .. => "" | _ => " and has not returned"))
+  let ops := ops.map (fun o => if o.t == t && !o.disturbed && o.cnt > soloBound o.push then { o with reported := true } else o)
+  let a := { a with viol := vo ++ a.viol }
+  match e with
+  | .inv _ push _ _ =>
+    { a with st := s', ops := { t := t, push := push, cnt := 1, disturbed := false,
+                                emptyAtInv := a.st.map (fun s => (contents s).isEmpty) } :: ops }
+  | .ret _ ok _ =>
+    match ops.find? (fun o => o.t == t) with
+    | none => { a with st := s', ops := ops }
+    | some o =>
+      let ops' := ops.filter (fun o => o.t != t)
+      if o.disturbed then { a with st := s', ops := ops' } else
+      let v2 := match o.emptyAtInv with
+        | none => []
+        | some emp =>
+          if ok != (o.push || !emp) then
+            [s!"thread {t}: a {if o.push then "push" else "pop"} that ran alone returned {ok}; the model's chain was {if emp then "empty" else "non-empty"} when it began"]
+          else []
+      { a with st := s', ops := ops', checked := a.checked + 1,
+               helped := a.helped + (if ops'.isEmpty then 0 else 1),
+               maxPush := if o.push then max a.maxPush o.cnt else a.maxPush,
+               maxPop := if o.push then a.maxPop else max a.maxPop o.cnt,
+               viol := v2 ++ a.viol }
+  | _ => { a with st := s', ops := ops }
+
+def soloMon (fx : Bool) (n : Nat) (evs : List (Option Ev × String)) : SoloAcc :=
+  evs.foldl (fun a p => match p.1 with
+    | some e => soloStep fx a e
+    | none => { a with st := none }) { st := some (Deque.init n) }
+
 def runCase (c : Case) : String :=
   let n := c.threads.length
   let kind := c.get "kind" "deque"
@@ -211,6 +272,9 @@ def runCase (c : Case) : String :=
     s!"case {c.id} accept 0 ; final fifo-spec ; {monS}"
   else
   let evs := toEvents (backendOf kind) ls []
+  let so := soloMon fx n evs
+  let mon := mon ++ so.viol.reverse
+  let monS := if mon.isEmpty then "monitors ok" else "monitors FAIL: " ++ " | ".intercalate mon
   match accept fx (Deque.init n) evs 0 with
   | .error (i, raw) => s!"case {c.id} reject {i} [{raw}] ; {monS}"
   | .ok s =>
@@ -225,7 +289,7 @@ def runCase (c : Case) : String :=
           "final MISMATCH: run ended but model threads are not finished"
         else if expect != drained then
           s!"final MISMATCH: drained {drained} but the model's chain holds {contents s}"
-        else s!"final ok len={s.chain.length} stale={s.stale} tags={if fx then "keep" else "reset"}"
+        else s!"final ok len={s.chain.length} stale={s.stale} tags={if fx then "keep" else "reset"} solo={so.checked}/{so.helped} solomax={so.maxPush}/{so.maxPop}"
       else s!"final status {c.status}"
     s!"case {c.id} accept {evs.length} ; {fin} ; {monS}"
 
